@@ -280,6 +280,7 @@ IsLong == rep.n # 0
 RECURSIVE Rep(_, _)
 Rep(x, n) == IF n = 0 THEN <<>> ELSE x \o Rep(x, n - 1)
 LongInit == \E p \in Prefixes, q \in Quotes, k \in 0..3, u \in LongUnits : \E n \in RepsOf(u) :
+              /\ (n > 10000 => k = 0)                 \* the 64 KiB literals: one phase is enough
               /\ lit = [parts |-> <<[p |-> p, q |-> q, a |-> Rep(<<PadAtom>>, k) \o u \o u \o u]>>]
               /\ rep = [k |-> k, u |-> u, n |-> n]
 Init == /\ IF Family = "long" THEN LongInit
